@@ -653,7 +653,7 @@ func runC02(t fataler, mode c03Mode, threshold int, ops []outOp, closeCode int, 
 func TestC02(t *testing.T) {
 	rec := evid.For("C02")
 	rec.Rule = "rapid-generated programs of Write / Writer(chunk list) / Ping / Writer interrupted by a Ping after its first Write / a Write held up by a zero window with three Ping calls queued behind it / a second Close on the writer of an earlier message (1-8 ops, in a quarter of the programs the peer sends a Ping for every data frame it receives so that the automatic Pongs race with the program's frames; boundary-biased lengths up to 70000, 5 content kinds) optionally ended by Close(code, reason), over 19 (role, mode, foreign offer or response) settings incl. asymmetric context-takeover agreements and window-bits parameters, x 6 thresholds; the recorded outbound bytes are parsed by the strict reference decoder (masking per role, key reuse, minimal lengths, control-frame rules, fragmentation sequencing, RSV rules, inflation under the sender direction's takeover setting, reconstructed messages == written, Close payload). Non-trivial: >=1 compressed (RSV1) message, or a message of >=3 frames, or an asymmetric agreement. distinct = hash(setting, threshold, op shapes, close)."
-	rapid.Check(t, func(rt *rapid.T) {
+	checkProp(t, func(rt *rapid.T) {
 		mode := rapid.SampledFrom(c02Modes).Draw(rt, "mode")
 		th := rapid.SampledFrom(c02Thresholds).Draw(rt, "threshold")
 		ops := genOutOps(rt, 8, 70000, true)
